@@ -116,6 +116,8 @@ func runC11(rc *RunCtx) {
 	var builderVals [][]modbus.FieldValue
 	var builderErrs []error
 	var builtDiff string
+	var handVals []modbus.FieldValue
+	var handBase, handBits int
 	s.Go("operator", false, func(tk *Task) {
 		ctx := context.Background()
 		// one client for the whole session: responses are held across later exchanges on the same client
@@ -201,6 +203,31 @@ func runC11(rc *RunCtx) {
 				vals, err := reqs[i].ExtractFields(resps[i], true)
 				builderVals = append(builderVals, vals)
 				builderErrs = append(builderErrs, err)
+			}
+			// the same responses through a hand-made field list (Fields is public): coils asked for under two names, and
+			// addresses outside what the response holds - each must be answered for itself
+			if len(reqs) > 0 && resps[0] != nil {
+				r0 := reqs[0]
+				npay := len(coilPayload(resps[0])) * 8
+				base := int(r0.StartAddress)
+				var fs []modbus.Field
+				mk := func(a int, name string) {
+					if a >= 0 && a < 65536 {
+						fs = append(fs, modbus.Field{Name: name, ServerAddress: server, UnitID: unit, Type: modbus.FieldTypeCoil, Address: uint16(a)})
+					}
+				}
+				for k := 0; k < 3; k++ {
+					a := base + t.Choose(max(1, npay))
+					mk(a, fmt.Sprintf("in%d", k))
+					mk(a, fmt.Sprintf("in%d_again", k))
+				}
+				for _, a := range []int{base + npay, base + npay + 3, base - 1, base - 9} {
+					mk(a, fmt.Sprintf("out%d", a))
+					mk(a, fmt.Sprintf("out%d_again", a))
+				}
+				hand := modbus.BuilderRequest{Request: r0.Request, ServerAddress: r0.ServerAddress, UnitID: r0.UnitID, StartAddress: r0.StartAddress, Fields: fs}
+				hv, _ := hand.ExtractFields(resps[0], true)
+				handVals, handBase, handBits = hv, base, npay
 			}
 			return
 		}
@@ -324,6 +351,20 @@ func runC11(rc *RunCtx) {
 		}
 	}
 	if viaBuilder {
+		for _, fv := range handVals {
+			a := int(fv.Field.Address)
+			inside := a >= handBase && a < handBase+handBits
+			switch {
+			case inside && (fv.Error != nil || fv.Value != any(dev.Bit(tab, fv.Field.Address))):
+				if a < handBase+builderQuantity(&builderReqs[0]) { // (padding bits are the device's zeros; the known byte-order finding is reported by the main comparison)
+					if handBits <= 8 {
+						rc.Violate("wrong_coil_value", sigBase+"|hand_made_fields", "coil field %s at %d: extracted %v (err %v), the device's coil is %v", fv.Field.Name, a, fv.Value, fv.Error, dev.Bit(tab, fv.Field.Address))
+					}
+				}
+			case !inside && fv.Error == nil:
+				rc.Violate("missing_bounds_error", sigBase+"|hand_made_fields", "coil field %s at %d lies outside the response window [%d,%d) but was extracted as %v without error", fv.Field.Name, a, handBase, handBase+handBits, fv.Value)
+			}
+		}
 		for i := range builderReqs {
 			fieldReq := &builderReqs[i]
 			fieldVals, fieldErr := builderVals[i], builderErrs[i]
